@@ -122,7 +122,7 @@ fn biased_graph(max_rules: usize) -> impl Strategy<Value = GraphSpec>
         g.n_leaves = g.n_leaves.max(2);
         if style % 2 == 0
         {
-            g.n_leaves = 2;
+            g.n_leaves = if style % 8 == 0 { 3 } else { 2 };
             // different contents to start with, so that a swap changes something
             if g.leaf_contents.len() >= 2 && g.leaf_contents[0] % gen::N_CONTENTS == g.leaf_contents[1] % gen::N_CONTENTS
             {
@@ -163,6 +163,13 @@ fn ops_biased(max_ops: usize) -> impl Strategy<Value = Vec<Op>>
         1 => (any::<u16>(), 0u8..gen::N_CONTENTS, gen::ops(mix, max_ops / 2)).prop_map(|(leaf, content, tail)|
         {
             let mut v = vec![Op::Build { goal: None }, Op::Edit { leaf, content }, Op::Build { goal: None }, Op::Clean { goal: None }, Op::Revert { leaf }, Op::Build { goal: None }];
+            v.extend(tail);
+            v
+        }),        // contents trade places and come back, and the build that brings them back from the cache FAILS for an unrelated
+        // reason (a leaf is missing): whatever that build moved must still be reflected in the saved table afterwards
+        1 => (any::<u16>(), any::<u16>(), any::<u16>(), gen::ops(mix, max_ops / 3)).prop_map(|(a, b, x, tail)|
+        {
+            let mut v = vec![Op::Build { goal: None }, Op::Swap { a, b }, Op::Build { goal: None }, Op::Swap { a, b }, Op::DeleteLeaf { leaf: x }, Op::Build { goal: None }, Op::Build { goal: None }];
             v.extend(tail);
             v
         }),
